@@ -80,11 +80,11 @@ Lemma elem_decode_app size unpack (data rest : bytes) :
   elem_decode size unpack (data ++ rest) = dwrap (dres_of_res (unpack data) rest).
 Proof.
   intros Hl Hs. unfold elem_decode. replace (Z.of_nat size) with (zlen data) by (unfold zlen; lia).
-  rewrite stream_read_app; [reflexivity|]. intros E. subst data. cbn in Hl. lia.
+  now rewrite stream_read_app.
 Qed.
 
-Lemma elem_decode_nil size unpack : elem_decode size unpack [] = DEmpty [].
-Proof. unfold elem_decode. now rewrite stream_read_nil. Qed.
+Lemma elem_decode_nil size unpack : (0 < size)%nat -> elem_decode size unpack [] = DEmpty [].
+Proof. intros H. unfold elem_decode. now rewrite stream_read_nil by lia. Qed.
 
 Ltac dom_val v H :=
   destruct v; try discriminate H.
@@ -98,13 +98,8 @@ Proof.
   - intros fuel _. cbn [decode_fuel norm]. unfold bool_decode.
     rewrite elem_decode_app by (cbn; lia). destruct b; reflexivity.
 Qed.
-Lemma ne_TBool : NE TBool.
-Proof.
-  intros _ _ v bs Hd. cbn [in_dom] in Hd. dom_val v Hd. cbn [encode]. unfold bool_encode, pub_encode.
-  cbn [truthy wrap_all]. intros H. injection H as <-. discriminate.
-Qed.
 Lemma em_TBool : EM TBool.
-Proof. intros _ _ fuel. cbn [decode_fuel]. apply elem_decode_nil. Qed.
+Proof. intros _ _ fuel. cbn [decode_fuel]. apply elem_decode_nil. lia. Qed.
 
 (* ---- integers *)
 Lemma rt_TInt sg w : RT (TInt sg w).
@@ -114,14 +109,8 @@ Proof.
   - cbn [encode]. now apply int_encode_ok.
   - intros fuel _. cbn [decode_fuel norm]. apply int_decode_ok; [lia|exact Hd].
 Qed.
-Lemma ne_TInt sg w : NE (TInt sg w).
-Proof.
-  intros Hwf _ v bs Hd. cbn [wf_ty] in Hwf. cbn [in_dom] in Hd. dom_val v Hd.
-  cbn [encode]. rewrite int_encode_ok by exact Hd. intros H. injection H as <-.
-  intros E. apply (f_equal (@length Z)) in E. rewrite le_enc_length in E. cbn in E. lia.
-Qed.
 Lemma em_TInt sg w : EM (TInt sg w).
-Proof. intros _ _ fuel. cbn [decode_fuel]. apply int_decode_nil. Qed.
+Proof. intros Hwf _ fuel. cbn [wf_ty] in Hwf. cbn [decode_fuel]. apply int_decode_nil. lia. Qed.
 
 (* ---- REAL / LREAL *)
 Lemma pow256_8 : pow256 8 = 2 ^ 64.
@@ -153,84 +142,82 @@ Proof.
       unfold unpack_real. rewrite le_enc_length. cbn [Nat.eqb dres_of_res dwrap].
       rewrite le_dec_enc_id; [reflexivity|]. unfold in_urange in H3. lia.
 Qed.
-Lemma ne_TReal dbl : NE (TReal dbl).
-Proof.
-  intros _ _ v bs Hd He. destruct (rt_TReal dbl eq_refl v [] Hd (fun _ => eq_refl)) as (bs' & He' & Hdec).
-  rewrite He in He'. injection He' as <-. intros E. subst bs.
-  specialize (Hdec 1%nat ltac:(cbn; lia)). cbn [app decode_fuel] in Hdec.
-  unfold real_decode in Hdec. rewrite elem_decode_nil in Hdec. discriminate.
-Qed.
 Lemma em_TReal dbl : EM (TReal dbl).
-Proof. intros _ _ fuel. cbn [decode_fuel]. apply elem_decode_nil. Qed.
+Proof. intros _ _ fuel. cbn [decode_fuel]. apply elem_decode_nil. destruct dbl; lia. Qed.
 
 (* ---- StringDataType *)
-Lemma str_dom_split lsg lw e s :
-  str_dom lsg lw e s = true -> int_in_range lsg lw (zlen s) = true /\ forallb (single_byte e) s = true.
-Proof. unfold str_dom. intros H. now apply andb_prop in H. Qed.
+Lemma enc_char_size_pos e : 0 < enc_char_size e.
+Proof. destruct e; cbn; lia. Qed.
 
 Lemma rt_TStr lsg lw e : RT (TStr lsg lw e).
 Proof.
   intros Hwf v rest Hd _. cbn [wf_ty] in Hwf. cbn [in_dom] in Hd. dom_val v Hd.
-  apply str_dom_split in Hd as [Hr Hs].
-  exists (le_enc lw (zlen s) ++ s). split.
-  - cbn [encode]. unfold str_encode, pub_encode. cbn [py_len bind]. rewrite int_encode_ok by exact Hr.
-    cbn [bind]. rewrite text_encode_single by exact Hs. reflexivity.
+  unfold str_dom in Hd. apply andb_prop in Hd as [Hi Hr].
+  destruct (codec_inverts_spec _ _ Hi) as (d & He & Hl & Hdec).
+  unfold code_units in Hr, Hl. rewrite He in Hr, Hl.
+  pose proof (enc_char_size_pos e) as Hcs.
+  set (n := zlen d / enc_char_size e) in *.
+  exists (le_enc lw n ++ d). split.
+  - cbn [encode]. unfold str_encode, pub_encode. rewrite He. cbn [bind]. fold n.
+    rewrite int_encode_ok by exact Hr. reflexivity.
   - intros fuel _. cbn [decode_fuel norm]. unfold str_decode. rewrite <- app_assoc.
     rewrite int_decode_ok by (try lia; exact Hr). cbn [dbind as_int].
-    destruct (zlen s =? 0) eqn:E0.
-    + assert (s = []) by (destruct s; [reflexivity|rewrite zlen_cons in E0; pose proof (zlen_nonneg s); lia]).
-      subst s. reflexivity.
-    + rewrite stream_read_app by (apply nonempty_zlen; pose proof (zlen_nonneg s); lia).
-      rewrite text_decode_single by exact Hs. reflexivity.
-Qed.
-Lemma ne_TStr lsg lw e : NE (TStr lsg lw e).
-Proof.
-  intros Hwf _ v bs Hd. cbn [wf_ty] in Hwf. cbn [in_dom] in Hd. dom_val v Hd.
-  apply str_dom_split in Hd as [Hr Hs].
-  cbn [encode]. unfold str_encode, pub_encode. cbn [py_len bind]. rewrite int_encode_ok by exact Hr.
-  cbn [bind]. rewrite text_encode_single by exact Hs. cbn [wrap_all]. intros H. injection H as <-.
-  intros E. apply (f_equal (@length Z)) in E. rewrite app_length, le_enc_length in E. cbn in E. lia.
+    destruct (n =? 0) eqn:E0.
+    + assert (d = []) by (destruct d; [reflexivity|rewrite zlen_cons in Hl; pose proof (zlen_nonneg d); lia]).
+      subst d. rewrite text_decode_nil in Hdec. injection Hdec as <-. reflexivity.
+    + rewrite <- Hl, stream_read_app, Hdec. reflexivity.
 Qed.
 Lemma em_TStr lsg lw e : EM (TStr lsg lw e).
-Proof. intros _ _ fuel. cbn [decode_fuel]. unfold str_decode. now rewrite int_decode_nil. Qed.
+Proof. intros Hwf _ fuel. cbn [wf_ty] in Hwf. cbn [decode_fuel]. unfold str_decode. rewrite int_decode_nil by lia. reflexivity. Qed.
 
-(* ---- STRINGN *)
+(* ---- STRINGN (character size 1: Latin-1) *)
 Lemma stringn_dom_split s :
-  stringn_dom s = true -> s <> [] /\ in_urange 2 (zlen s) = true /\ forallb (single_byte Utf8) s = true.
-Proof.
-  unfold stringn_dom. destruct s; [discriminate|]. intros H. apply andb_prop in H as [H1 H2].
-  repeat split; [discriminate|exact H1|exact H2].
-Qed.
+  stringn_dom s = true -> in_urange 2 (zlen s) = true /\ forallb (single_byte Latin1) s = true.
+Proof. unfold stringn_dom. intros H. now apply andb_prop in H. Qed.
 
 Lemma rt_TStringN : RT TStringN.
 Proof.
-  intros _ v rest Hd _. cbn [in_dom] in Hd. dom_val v Hd. apply stringn_dom_split in Hd as (Hne & Hr & Hs).
+  intros _ v rest Hd _. cbn [in_dom] in Hd. dom_val v Hd. apply stringn_dom_split in Hd as (Hr & Hs).
   exists (le_enc 2 1 ++ le_enc 2 (zlen s) ++ s). split.
   - cbn [encode]. unfold stringn_encode, stringn_encode_cs. cbn [as_int]. rewrite stringn_enc_1.
-    rewrite (named_int_encode_ok _ _ _ _ int_row_UINT) by reflexivity. cbn [bind py_len].
-    rewrite (named_int_encode_ok _ _ _ _ int_row_UINT) by exact Hr. cbn [bind].
-    rewrite text_encode_single by exact Hs. reflexivity.
+    rewrite text_encode_single by exact Hs. cbn [bind].
+    rewrite (named_int_encode_ok _ _ _ _ int_row_UINT) by reflexivity. cbn [bind]. rewrite Z.div_1_r.
+    rewrite (named_int_encode_ok _ _ _ _ int_row_UINT) by exact Hr. reflexivity.
   - intros fuel _. cbn [decode_fuel norm]. unfold stringn_decode. rewrite <- !app_assoc.
     rewrite (named_int_decode_ok _ _ _ _ _ int_row_UINT) by (try lia; reflexivity). cbn [dbind].
     rewrite (named_int_decode_ok _ _ _ _ _ int_row_UINT) by (try lia; exact Hr). cbn [dbind as_int].
-    rewrite stringn_enc_1. rewrite Z.mul_1_r. rewrite stream_read_app by exact Hne.
-    rewrite text_decode_single by exact Hs. reflexivity.
-Qed.
-Lemma ne_TStringN : NE TStringN.
-Proof.
-  intros _ _ v bs Hd He. destruct (rt_TStringN eq_refl v [] Hd (fun _ => eq_refl)) as (bs' & He' & _).
-  rewrite He in He'. injection He' as <-.
-  cbn [in_dom] in Hd. dom_val v Hd. cbn [encode] in He. intros E. subst bs.
-  unfold stringn_encode, stringn_encode_cs in He. cbn [as_int] in He. rewrite stringn_enc_1 in He.
-  rewrite (named_int_encode_ok _ _ _ _ int_row_UINT) in He by reflexivity. cbn [bind py_len] in He.
-  apply stringn_dom_split in Hd as (Hne & Hr & Hs).
-  rewrite (named_int_encode_ok _ _ _ _ int_row_UINT) in He by exact Hr. cbn [bind] in He.
-  rewrite text_encode_single in He by exact Hs. discriminate.
+    rewrite stringn_enc_1. destruct (zlen s =? 0) eqn:E0.
+    + assert (s = []) by (destruct s; [reflexivity|rewrite zlen_cons in E0; pose proof (zlen_nonneg s); lia]).
+      subst s. reflexivity.
+    + rewrite Z.mul_1_r, stream_read_app. cbn [text_decode]. reflexivity.
 Qed.
 Lemma em_TStringN : EM TStringN.
 Proof.
   intros _ _ fuel. cbn [decode_fuel]. unfold stringn_decode, named_int_decode. rewrite int_row_UINT.
-  now rewrite int_decode_nil.
+  now rewrite int_decode_nil by lia.
+Qed.
+
+(* ---- DATE_AND_TIME *)
+Lemma rt_TDateTime : RT TDateTime.
+Proof.
+  intros _ v rest Hd _. cbn [in_dom] in Hd.
+  destruct v as [| | | | | | |items| |]; try discriminate Hd.
+  destruct items as [|v1 items]; [discriminate Hd|]. destruct v1 as [| |t| | | | | | |]; try discriminate Hd.
+  destruct items as [|v2 items]; [discriminate Hd|]. destruct v2 as [| |d| | | | | | |]; try discriminate Hd.
+  destruct items as [|? ?]; [|discriminate Hd].
+  apply andb_prop in Hd as [Ht Hdd].
+  exists (le_enc 4 t ++ le_enc 2 d). split.
+  - cbn [encode]. unfold datetime_encode, datetime_encode2. cbn [py_iter bind fst snd].
+    rewrite (named_int_encode_ok _ _ _ _ int_row_UDINT) by exact Ht. cbn [bind].
+    rewrite (named_int_encode_ok _ _ _ _ int_row_UINT) by exact Hdd. reflexivity.
+  - intros fuel _. cbn [decode_fuel norm]. unfold datetime_decode. rewrite <- app_assoc.
+    rewrite (named_int_decode_ok _ _ _ _ _ int_row_UDINT) by (try lia; exact Ht). cbn [dbind].
+    rewrite (named_int_decode_ok _ _ _ _ _ int_row_UINT) by (try lia; exact Hdd). reflexivity.
+Qed.
+Lemma em_TDateTime : EM TDateTime.
+Proof.
+  intros _ _ fuel. cbn [decode_fuel]. unfold datetime_decode, named_int_decode. rewrite int_row_UDINT.
+  now rewrite int_decode_nil by lia.
 Qed.
 
 (* ---- n_bytes *)
@@ -246,9 +233,13 @@ Proof.
   - intros fuel _. cbn [decode_fuel norm]. unfold nbytes_decode.
     destruct (n <? 0) eqn:E0.
     + rewrite (Hg eq_refl), app_nil_r. unfold stream_read, stream_take. rewrite E0.
-      destruct b; [cbn in Hl; discriminate|reflexivity].
-    + assert (n = zlen b) by lia. subst n. rewrite stream_read_app; [reflexivity|].
-      apply nonempty_zlen. lia.
+      destruct b as [|x b]; [cbn in Hl; discriminate|].
+      destruct (zlen (x :: b) <? n) eqn:E; [pose proof (zlen_nonneg (x :: b)); lia|reflexivity].
+    + assert (n = zlen b) by lia. subst n. now rewrite stream_read_app.
+Qed.
+Lemma em_TNBytes n : EM (TNBytes n).
+Proof.
+  intros _ Hc fuel. cbn [consumes] in Hc. cbn [decode_fuel]. unfold nbytes_decode. now rewrite stream_read_nil by lia.
 Qed.
 
 (* ---- bit strings *)
@@ -260,14 +251,8 @@ Proof.
   - cbn [encode]. apply bits_encode_ok. lia.
   - intros fuel _. cbn [decode_fuel norm]. apply bits_decode_ok; [lia|lia|exact Hb].
 Qed.
-Lemma ne_TBits w : NE (TBits w).
-Proof.
-  intros Hwf _ v bs Hd. cbn [wf_ty] in Hwf. cbn [in_dom] in Hd. dom_val v Hd.
-  apply andb_prop in Hd as [Hl Hb]. cbn [encode]. rewrite bits_encode_ok by lia.
-  intros H. injection H as <-. intros E. apply (f_equal (@length Z)) in E. rewrite le_enc_length in E. cbn in E. lia.
-Qed.
 Lemma em_TBits w : EM (TBits w).
-Proof. intros _ _ fuel. cbn [decode_fuel]. unfold bits_decode. now rewrite int_decode_nil. Qed.
+Proof. intros Hwf _ fuel. cbn [wf_ty] in Hwf. cbn [decode_fuel]. unfold bits_decode. now rewrite int_decode_nil by lia. Qed.
 
 (* ---- FixedSizeString *)
 Lemma py_slice_str s cap : py_slice (VStr s) 0 cap = Ok (VStr (firstn cap s)).
@@ -278,7 +263,7 @@ Lemma fixedstr_encode_ok size lsg lw cap s :
   str_dom lsg lw Latin1 s' = true ->
   fixedstr_encode size lsg lw cap (VStr s) = Ok (le_enc lw (zlen s') ++ s' ++ zeros (size - length s')).
 Proof.
-  intros s' Hd. apply str_dom_split in Hd as [Hr Hs].
+  intros s' Hd. apply latin1_dom in Hd as [Hr Hs].
   unfold fixedstr_encode, pub_encode. rewrite fss_enc_latin1, py_slice_str. cbn [bind py_len]. fold s'.
   rewrite int_encode_ok by exact Hr. cbn [bind]. rewrite text_encode_single by exact Hs. reflexivity.
 Qed.
@@ -287,7 +272,7 @@ Lemma rt_TFixedStr size lsg lw cap : RT (TFixedStr size lsg lw cap).
 Proof.
   intros Hwf v rest Hd _. cbn [wf_ty] in Hwf. cbn [in_dom] in Hd. dom_val v Hd.
   apply andb_prop in Hd as [Hd Hc]. pose proof (fixedstr_encode_ok size lsg lw cap s Hd) as He. cbv zeta in He.
-  apply str_dom_split in Hd as [Hr Hs]. set (s' := firstn cap s) in *.
+  apply latin1_dom in Hd as [Hr Hs]. set (s' := firstn cap s) in *.
   eexists. split; [cbn [encode]; exact He|].
   intros fuel _. cbn [decode_fuel norm]. unfold fixedstr_decode. rewrite fss_enc_latin1. rewrite <- !app_assoc.
   rewrite int_decode_ok by (try lia; exact Hr). cbn [dbind as_int].
@@ -295,20 +280,13 @@ Proof.
   assert (Hlen : zlen (s' ++ zeros (size - length s')) = Z.of_nat size).
   { rewrite zlen_app. unfold zlen. rewrite zeros_length. lia. }
   rewrite <- Hlen. rewrite stream_read_app.
-  - unfold slice_to. pose proof (zlen_nonneg s'). destruct (0 <=? zlen s') eqn:E; [|lia].
-    rewrite ztake_app_exact. cbn [text_decode]. reflexivity.
-  - apply nonempty_zlen. lia.
-Qed.
-Lemma ne_TFixedStr size lsg lw cap : NE (TFixedStr size lsg lw cap).
-Proof.
-  intros Hwf _ v bs Hd. cbn [wf_ty] in Hwf. cbn [in_dom] in Hd. dom_val v Hd.
-  apply andb_prop in Hd as [Hd Hc]. cbn [encode]. rewrite fixedstr_encode_ok by exact Hd.
-  intros H. injection H as <-. intros E. apply (f_equal (@length Z)) in E.
-  rewrite app_length, le_enc_length in E. cbn in E. lia.
+  unfold slice_to. pose proof (zlen_nonneg s'). destruct (0 <=? zlen s') eqn:E; [|lia].
+  rewrite ztake_app_exact. cbn [text_decode]. reflexivity.
 Qed.
 Lemma em_TFixedStr size lsg lw cap : EM (TFixedStr size lsg lw cap).
 Proof.
-  intros _ _ fuel. cbn [decode_fuel]. unfold fixedstr_decode. rewrite fss_enc_latin1. now rewrite int_decode_nil.
+  intros Hwf _ fuel. cbn [wf_ty] in Hwf. cbn [decode_fuel]. unfold fixedstr_decode. rewrite fss_enc_latin1.
+  now rewrite int_decode_nil by lia.
 Qed.
 
 (* ---- IPAddress *)
@@ -323,18 +301,11 @@ Proof.
   exists [a; b; c; d]. split.
   - cbn [encode]. unfold ip_encode, pub_encode. now rewrite Ep.
   - intros fuel _. cbn [decode_fuel norm]. unfold ip_decode.
-    change 4 with (zlen [a; b; c; d]). rewrite stream_read_app by discriminate.
+    change 4 with (zlen [a; b; c; d]). rewrite stream_read_app.
     cbn [dwrap]. now rewrite <- (parse_ipv4_text _ _ _ _ _ Ep).
 Qed.
-Lemma ne_TIPAddr : NE TIPAddr.
-Proof.
-  intros _ _ v bs Hd He. destruct (rt_TIPAddr eq_refl v [] Hd (fun _ => eq_refl)) as (bs' & He' & Hdec).
-  rewrite He in He'. injection He' as <-. intros E. subst bs.
-  specialize (Hdec 1%nat ltac:(cbn; lia)). cbn [app decode_fuel] in Hdec.
-  unfold ip_decode in Hdec. rewrite stream_read_nil in Hdec. discriminate.
-Qed.
 Lemma em_TIPAddr : EM TIPAddr.
-Proof. intros _ _ fuel. cbn [decode_fuel]. unfold ip_decode. now rewrite stream_read_nil. Qed.
+Proof. intros _ _ fuel. cbn [decode_fuel]. unfold ip_decode. now rewrite stream_read_nil by lia. Qed.
 
 (* ---- PCCC_ASCII / PCCC_STRING *)
 Lemma rt_TPcccAscii : RT TPcccAscii.
@@ -347,7 +318,7 @@ Proof.
     cbn [py_slice slice skipn firstn Nat.sub bind py_iter map or_space_encode truthy text_encode].
     rewrite (single_byte_enc_char Latin1 c1 H1), (single_byte_enc_char Latin1 c2 H2). reflexivity.
   - intros fuel _. cbn [decode_fuel norm]. unfold pccc_ascii_decode. rewrite pccc_ascii_enc_latin1.
-    change 2 with (zlen [c2; c1]). rewrite stream_take_app. reflexivity.
+    change 2 with (zlen [c2; c1]). rewrite stream_read_app. reflexivity.
 Qed.
 
 Lemma rt_TPcccString : RT TPcccString.
@@ -391,6 +362,51 @@ Lemma ad_TBool : AD TBool.
 Proof.
   intros w bs rest fuel _ Hw Hl. cbn in Hw. injection Hw as <-. cbn [decode_fuel]. unfold bool_decode.
   rewrite elem_decode_app by (try exact Hl; lia). cbn [dres_of_res dwrap]. eexists. split; [reflexivity|discriminate].
+Qed.
+
+Lemma fw_TDateTime : FW TDateTime.
+Proof.
+  intros w v bs Hw _ Hd He. cbn in Hw. injection Hw as <-.
+  destruct (rt_TDateTime eq_refl v [] Hd (fun _ => eq_refl)) as (bs' & He' & _).
+  rewrite He in He'. injection He' as <-. cbn [in_dom] in Hd.
+  destruct v as [| | | | | | |items| |]; try discriminate Hd.
+  destruct items as [|v1 items]; [discriminate Hd|]. destruct v1 as [| |t| | | | | | |]; try discriminate Hd.
+  destruct items as [|v2 items]; [discriminate Hd|]. destruct v2 as [| |d| | | | | | |]; try discriminate Hd.
+  destruct items as [|? ?]; [|discriminate Hd].
+  apply andb_prop in Hd as [Ht Hdd].
+  cbn [encode] in He. unfold datetime_encode, datetime_encode2 in He. cbn [py_iter bind fst snd] in He.
+  rewrite (named_int_encode_ok _ _ _ _ int_row_UDINT) in He by exact Ht. cbn [bind] in He.
+  rewrite (named_int_encode_ok _ _ _ _ int_row_UINT) in He by exact Hdd. cbn [bind wrap_all] in He.
+  injection He as <-. first [reflexivity | rewrite app_length, !le_enc_length; reflexivity].
+Qed.
+Lemma ad_TDateTime : AD TDateTime.
+Proof.
+  intros w bs rest fuel _ Hw Hl. cbn in Hw. injection Hw as <-.
+  cbn [decode_fuel]. unfold datetime_decode, named_int_decode. rewrite int_row_UDINT, int_row_UINT.
+  rewrite <- (firstn_skipn 4 bs), <- app_assoc.
+  unfold int_decode at 1. rewrite elem_decode_app by (try (rewrite firstn_length; lia); lia).
+  unfold unpack_int at 1. rewrite firstn_length. replace (Nat.min 4 (length bs)) with 4%nat by lia.
+  cbn [Nat.eqb dres_of_res dwrap dbind].
+  unfold int_decode. rewrite elem_decode_app by (try (rewrite skipn_length; lia); lia).
+  unfold unpack_int. rewrite skipn_length. replace (length bs - 4)%nat with 2%nat by lia.
+  cbn [Nat.eqb dres_of_res dwrap dbind]. eexists. split; [reflexivity|discriminate].
+Qed.
+
+Lemma fw_TNBytes n : FW (TNBytes n).
+Proof.
+  intros w v bs Hw Hwf Hd He. cbn [fixed_width] in Hw. destruct (0 <=? n) eqn:E; [|discriminate]. injection Hw as <-.
+  destruct (rt_TNBytes n Hwf v [] Hd ltac:(cbn [greedy]; lia)) as (bs' & He' & _).
+  rewrite He in He'. injection He' as <-.
+  cbn [in_dom] in Hd. dom_val v Hd. apply andb_prop in Hd as [_ Hl]. destruct (n <? 0) eqn:E0; [lia|].
+  cbn [encode] in He. unfold nbytes_encode, pub_encode in He. cbn [wrap_all] in He.
+  destruct (n =? -1) eqn:E1; [lia|]. injection He as <-. unfold slice_to. rewrite E.
+  rewrite ztake_all by lia. unfold zlen in Hl. lia.
+Qed.
+Lemma ad_TNBytes n : AD (TNBytes n).
+Proof.
+  intros w bs rest fuel Ha Hw Hl. cbn [always_decodes] in Ha. cbn [fixed_width] in Hw. rewrite Ha in Hw. injection Hw as <-.
+  cbn [decode_fuel]. unfold nbytes_decode. replace n with (zlen bs) by (unfold zlen; lia).
+  rewrite stream_read_app. cbn [dwrap]. eexists. split; [reflexivity|discriminate].
 Qed.
 
 Lemma fw_TInt sg w0 : FW (TInt sg w0).
@@ -455,7 +471,7 @@ Lemma ad_TIPAddr : AD TIPAddr.
 Proof.
   intros w bs rest fuel _ Hw Hl. cbn in Hw. injection Hw as <-.
   destruct bs as [|a [|b [|c [|d [|? ?]]]]]; try discriminate Hl.
-  cbn [decode_fuel]. unfold ip_decode. change 4 with (zlen [a; b; c; d]). rewrite stream_read_app by discriminate.
+  cbn [decode_fuel]. unfold ip_decode. change 4 with (zlen [a; b; c; d]). rewrite stream_read_app.
   cbn [dwrap]. eexists. split; [reflexivity|discriminate].
 Qed.
 
